@@ -37,7 +37,7 @@ def run_driver(lines):
 
 
 def model_line(scen):
-    keys = ('id', 'env', 'op', 'ty', 'val', 'handlers', 'name', 'style', 'tys', 'args', 'kwargs', 'cls', 'decls', 'obj', 'set', 'set_only', 'rename', 'frozen', 'deep', 'a', 'b', 'akey', 'bkey', 'explicit_hash', 'eq_opt', 'order_opt', 'ops', 'maxsize', 'keys', 'is_path', 'how', 'mutate', 'explicit_eq', 'shapes', 'partial')
+    keys = ('id', 'env', 'op', 'ty', 'val', 'handlers', 'name', 'style', 'tys', 'args', 'kwargs', 'cls', 'decls', 'obj', 'set', 'set_only', 'rename', 'frozen', 'deep', 'a', 'b', 'akey', 'bkey', 'explicit_hash', 'eq_opt', 'order_opt', 'ops', 'maxsize', 'keys', 'is_path', 'how', 'mutate', 'explicit_eq', 'shapes', 'partial', 'classes', 'members')
     return json.dumps({k: scen[k] for k in keys if k in scen}, ensure_ascii=False)
 
 
